@@ -188,6 +188,25 @@ func merge[EntityT entity.Interface](def Definition, wrapper func(e *Entity) Ent
 		return entity.NewMergeUpdatedStatus(id, remoteEntity)
 	}
 
+	// Both histories have diverged. They must at least share their root, otherwise the remote
+	// is a different history published under the same id, and merging it would produce an
+	// Entity with multiple roots that can't be read anymore.
+	localCommitSet := make(map[repository.Hash]struct{}, len(localCommits))
+	for _, hash := range localCommits {
+		localCommitSet[hash] = struct{}{}
+	}
+	commonAncestor := false
+	for _, hash := range remoteCommits {
+		if _, ok := localCommitSet[hash]; ok {
+			commonAncestor = true
+			break
+		}
+	}
+	if !commonAncestor {
+		return entity.NewMergeInvalidStatus(id,
+			fmt.Sprintf("remote %s has no common history with the local one", def.Typename))
+	}
+
 	// SCENARIO 5
 	// if both local and remote Entity have new commits (that is, we have a concurrent edition),
 	// a merge commit with an empty operationPack is created to join both branch and form a DAG.
